@@ -252,6 +252,44 @@ func ubjDocFamilies(sc docScope, run docBody) []engine.Family {
 			}
 			mkDoc(x, codecUBJSON, "ubj-marker-lengths", fmt.Sprintf("marker-valued-length:%d", L), doc, model.Complete, run)
 		}},
+		{Name: "ubj-typed-nesting", Body: func(x *engine.Exec) {
+			// a typed container whose element type is itself a container; one element holds a typed / counted container
+			// (directly or one level deeper), and another element follows or precedes it: the element-type stack must be
+			// back at the outer type when the next element starts
+			outerObj := x.Bool()
+			elemObj := x.Bool()
+			inner := [][]byte{{'{', '$', 'i', '#', 'i', 1, 'i', 1, 'a', 5}, {'[', '$', 'i', '#', 'i', 1, 5}, {'{', '#', 'i', 1, 'i', 1, 'a', 'i', 5}, {'[', '$', 'S', '#', 'i', 1, 'i', 1, 's'},
+				{'{', '$', '[', '#', 'i', 1, 'i', 1, 'a', 'T', ']'}, {'[', '$', 'Z', '#', 'i', 2}}[x.Choose(6)]
+			if x.Bool() {
+				inner = cat2([]byte{'['}, inner, []byte{'F', ']'})
+			}
+			elem := func(content []byte) []byte { // the payload of one element of the outer container (its marker is implied)
+				if elemObj {
+					return cat2([]byte{'i', 1, 'k'}, content, []byte{'}'})
+				}
+				return cat2(content, []byte{']'})
+			}
+			small := elem([]byte{'i', 7})
+			big := elem(inner)
+			first, second := big, small
+			if x.Bool() {
+				first, second = small, big
+			}
+			et := byte('[')
+			if elemObj {
+				et = '{'
+			}
+			var doc []byte
+			if outerObj {
+				doc = cat2([]byte{'{', '$', et, '#', 'i', 2, 'i', 1, 'p'}, first, []byte{'i', 1, 'q'}, second)
+			} else {
+				doc = cat2([]byte{'[', '$', et, '#', 'i', 2}, first, second)
+			}
+			if x.Bool() {
+				doc = cat2([]byte{'['}, doc, []byte{'i', 9, ']'})
+			}
+			mkDoc(x, codecUBJSON, "ubj-typed-nesting", "typed-nesting", doc, model.Complete, run)
+		}},
 		{Name: "ubj-noop-insertions", Arity: []int{gen.UBJTreeRootArity(), 3}, Body: func(x *engine.Exec) {
 			// a no-op marker inserted at EVERY byte position of every 3-node document (plain, counted and typed containers):
 			// in front of values it is skipped and not counted, in front of field names and inside headers it is malformed,
